@@ -274,28 +274,47 @@ func runExhaustive(thorough bool) {
 	}
 	one := xlayout{"1region", nil}
 	two := xlayout{"2regions", [][]byte{keyB}}
-	for _, mode := range modes {
+	pairs := func(name string, lay xlayout, ps []xprog, mode string) {
+		for i, p := range ps {
+			for _, q := range ps[i:] {
+				do(name, lay, []xprog{p, q}, mode, *exhLimit)
+			}
+		}
+	}
+	for mi, mode := range modes {
 		a1 := alphabet(false)
 		if !thorough {
-			for i, p := range a1 {
-				for _, q := range a1[i:] {
-					do("pairs-1key", one, []xprog{p, q}, mode, 20000)
-				}
+			// quick: every pair over one key, one region (profile full: async commit only)
+			if mi == 0 {
+				pairs("pairs-1key", one, a1, mode)
 			}
 			continue
 		}
-		a2 := alphabet(true)
-		for _, lay := range []xlayout{one, two} {
-			for i, p := range a2 {
-				for _, q := range a2[i:] {
-					do("pairs-2keys", lay, []xprog{p, q}, mode, 20000)
-				}
+		// thorough, A: every pair of the two-key alphabet on one region
+		pairs("pairs-2keys", one, alphabet(true), mode)
+		// B: on two regions (a | b): the one-key programs on key a against every two-key program (primary in the same or in
+		// the other region) and the reader, the reader against every writer, and the optimistic against the pessimistic
+		// two-key writer.  (The one-key programs on key b mirror those on key a; the two-key writers against themselves on two
+		// regions exceed the schedule limit and are not part of the claim.)
+		oneKey := []xprog{xRW(false, keyA), xRW(true, keyA), xLW(keyA), xSR(true, keyA)}
+		twoKey := []xprog{xW2(false, keyA), xW2(true, keyA), xW2(true, keyB), xR2()}
+		for _, p := range oneKey {
+			for _, q := range twoKey {
+				do("pairs-2regions", two, []xprog{p, q}, mode, *exhLimit)
 			}
 		}
-		for i, p := range a1 {
-			for j, q := range a1[i:] {
-				for _, r := range a1[i+j:] {
-					do("triples-1key", one, []xprog{p, q, r}, mode, 20000)
+		for _, q := range twoKey {
+			do("pairs-2regions", two, []xprog{xR2(), q}, mode, *exhLimit)
+		}
+		do("pairs-2regions", two, []xprog{xW2(false, keyA), xW2(true, keyA)}, mode, *exhLimit)
+		// C: triples over one key
+		if mi == 0 {
+			t := []xprog{xRW(false, keyA), xLW(keyA), xSR(true, keyA)}
+			for i, p := range t {
+				for j, q := range t[i:] {
+					for _, r := range t[i+j:] {
+						do("triples-1key", one, []xprog{p, q, r}, mode, *exhLimit)
+					}
 				}
 			}
 		}
